@@ -14,6 +14,7 @@ import (
 	"regexp"
 	"sort"
 	"strings"
+	"sync"
 
 	"golang.org/x/tools/go/packages"
 	"golang.org/x/tools/go/ssa"
@@ -61,6 +62,8 @@ type World struct {
 	specFns   map[string]*ssa.Function
 	TrustedPkgDir string
 	FileOfPkg     map[string]*ContractFile
+	stable        map[string]bool
+	stableOnce    sync.Once
 }
 
 func parseModEntry(m string) *ModSpec {
@@ -423,6 +426,11 @@ func (w *World) GenerateSpecs() error {
 				fmt.Fprintf(&body, "func %s(%s) {\n\tspec_ref(%s)\n}\n\n", ms.SpecFn, strings.Join(ps, ", "), ms.Expr)
 				w.SpecInfo[ms.SpecFn] = info
 			}
+			for k, ss := range fc.Sites {
+				if err := emit(fc, ss.Clause, fmt.Sprintf("site%d", k+1), si, false, ss.Vars); err != nil {
+					return err
+				}
+			}
 			if fc.AllocBound != "" {
 				c := &Clause{Kind: "allocbound", Expr: fc.AllocBound, Line: fc.Line}
 				if err := emit(fc, c, "allocbound", si, false, nil); err != nil {
@@ -740,4 +748,17 @@ func identOf(s string) string {
 		}
 	}
 	return b.String()
+}
+
+
+func (w *World) nonNilDynamic(t types.Type) bool {
+	n := typeName(t)
+	for _, cf := range w.Files {
+		for _, x := range cf.NonNilDynamic {
+			if x == n {
+				return true
+			}
+		}
+	}
+	return false
 }
